@@ -61,13 +61,24 @@ structure PnOK (Pn : Obs τ → Prop) : Prop where
   check : ∀ j ok, Pn (.check j ok)
   noRecv : ∀ o, Pn o → o.isRecv = false
 
-def notRecv (o : Obs τ) : Prop := o.isRecv = false
+/-- a fiat entry whose recorded return value is `status == <expected>` (any other entry is fine) -/
+def Obs.fiatTrue : Obs τ → Prop
+  | .fiat _ _ c st ret => ret = decide (st = expected c)
+  | _ => True
+
+/-- entries a top-level framer's run may add: no scheduler marker, truthful fiats -/
+def good (o : Obs τ) : Prop := o.isRecv = false ∧ o.fiatTrue
+/-- entries a slave's run may add: no scheduler marker, no fiat -/
 def plain (o : Obs τ) : Prop := o.isRecv = false ∧ o.isFiat = false
 
-theorem notRecv_ok : PnOK (notRecv (τ := τ)) :=
-  ⟨fun _ _ => rfl, fun _ _ _ _ => rfl, fun _ _ => rfl, fun _ h => h⟩
+theorem good_ok : PnOK (good (τ := τ)) :=
+  ⟨fun _ _ => ⟨rfl, trivial⟩, fun _ _ _ _ => ⟨rfl, trivial⟩, fun _ _ => ⟨rfl, trivial⟩, fun _ h => h.1⟩
 theorem plain_ok : PnOK (plain (τ := τ)) :=
   ⟨fun _ _ => ⟨rfl, rfl⟩, fun _ _ _ _ => ⟨rfl, rfl⟩, fun _ _ => ⟨rfl, rfl⟩, fun _ h => h.1⟩
+
+theorem plain_good {o : Obs τ} (h : plain o) : good o := by
+  refine ⟨h.1, ?_⟩
+  cases o <;> simp_all [plain, Obs.isFiat, Obs.fiatTrue]
 
 /-- the effect of a hook run on behalf of framer `i` -/
 structure Fx (Pn : Obs τ → Prop) (i : Nat) (w w' : World τ) : Prop where
@@ -108,6 +119,15 @@ theorem Fx.modF {Pn : Obs τ → Prop} (i j : Nat) (w : World τ) (g : Fr τ →
     · rename_i h; subst h; exact hd _
     · rfl
   · rfl
+
+theorem DesireOK.log {w : World τ} (h : DesireOK w) (o : Obs τ) (hw : ∀ j c, o ≠ .write j c) :
+    DesireOK (w.log o) := by
+  intro k c hk
+  simp only [World.log] at hk
+  rw [lastWrite_snoc] at hk
+  have : lastWrite w.trace k = some c := by
+    cases o <;> simp_all
+  exact h k c this
 
 /-- logging an entry that is neither a write nor a fiat nor a scheduler marker -/
 theorem Fx.log {Pn : Obs τ → Prop} (i : Nat) (w : World τ) (o : Obs τ) (hp : Pn o)
@@ -206,16 +226,22 @@ theorem Fx.checkStart {Pn : Obs τ → Prop} (hP : PnOK Pn) {H : FiatH τ} (hH :
     · exact Fx.evalGuards hP hH i _ w
   exact Fx.trans h1 (Fx.log i r.2 (.check i r.1) (hP.check _ _) (by simp) rfl)
 
+theorem Fx.setRecurred {Pn : Obs τ → Prop} (i j n : Nat) (w : World τ) : Fx Pn i w (setRecurred j n w) :=
+  Fx.modF i j w _ (fun _ => rfl) (fun _ => rfl)
+theorem Fx.bumpRecurred {Pn : Obs τ → Prop} (i j : Nat) (w : World τ) : Fx Pn i w (bumpRecurred j w) :=
+  Fx.modF i j w _ (fun _ => rfl) (fun _ => rfl)
+theorem Fx.setActive {Pn : Obs τ → Prop} (i j : Nat) (a : Option Nat) (w : World τ) : Fx Pn i w (setActive j a w) :=
+  Fx.modF i j w _ (fun _ => rfl) (fun _ => rfl)
+
 theorem Fx.enterFrame {Pn : Obs τ → Prop} (hP : PnOK Pn) {H : FiatH τ} (hH : HSpec Pn H) (i idx : Nat) (w : World τ) :
     Fx Pn i w (enterFrame H i idx w) := by
   unfold Ioflo.Bids.enterFrame
-  exact Fx.trans (Fx.modF i i w _ (fun _ => rfl) (fun _ => rfl))
-    (Fx.trans (Fx.runActs hP hH i _ _) (Fx.modF i i _ _ (fun _ => rfl) (fun _ => rfl)))
+  exact Fx.trans (Fx.setRecurred i i 0 w) (Fx.trans (Fx.runActs hP hH i _ _) (Fx.setActive i i _ _))
 
 theorem Fx.enterAll {Pn : Obs τ → Prop} (hP : PnOK Pn) {H : FiatH τ} (hH : HSpec Pn H) (i : Nat) (w : World τ) :
     Fx Pn i w (enterAll H i w) := by
   unfold Ioflo.Bids.enterAll
-  exact Fx.trans (Fx.modF i i w _ (fun _ => rfl) (fun _ => rfl)) (Fx.enterFrame hP hH i 0 _)
+  exact Fx.trans (Fx.setActive i i _ w) (Fx.enterFrame hP hH i 0 _)
 
 theorem Fx.recur {Pn : Obs τ → Prop} (hP : PnOK Pn) {H : FiatH τ} (hH : HSpec Pn H) (i : Nat) (w : World τ) :
     Fx Pn i w (recur H i w) := by
@@ -224,19 +250,17 @@ theorem Fx.recur {Pn : Obs τ → Prop} (hP : PnOK Pn) {H : FiatH τ} (hH : HSpe
   · exact Fx.runActs hP hH i _ w
   · exact Fx.refl _ _ _
 
+theorem Fx.exitActive {Pn : Obs τ → Prop} (hP : PnOK Pn) {H : FiatH τ} (hH : HSpec Pn H) (i : Nat) (w : World τ) :
+    Fx Pn i w (exitActive H i w) := by
+  unfold Ioflo.Bids.exitActive
+  split
+  · exact Fx.runActs hP hH i _ w
+  · exact Fx.refl _ _ _
+
 theorem Fx.exitAll {Pn : Obs τ → Prop} (hP : PnOK Pn) {H : FiatH τ} (hH : HSpec Pn H) (i : Nat) (w : World τ) :
     Fx Pn i w (exitAll H i w) := by
   unfold Ioflo.Bids.exitAll
-  simp only []
-  generalize hr : (match (w.framers i).active with
-    | some idx => Ioflo.Bids.runActs H i (frameOf (w.framers i) idx).exacts w
-    | none => w) = w1
-  have h1 : Fx Pn i w w1 := by
-    rw [← hr]
-    split
-    · exact Fx.runActs hP hH i _ w
-    · exact Fx.refl _ _ _
-  exact Fx.trans h1 (Fx.modF i i _ _ (fun _ => rfl) (fun _ => rfl))
+  exact Fx.trans (Fx.exitActive hP hH i w) (Fx.setActive i i _ _)
 
 theorem Fx.precur {Pn : Obs τ → Prop} (hP : PnOK Pn) {H : FiatH τ} (hH : HSpec Pn H) (i near : Nat) :
     ∀ (ts : List Trans) (w : World τ), Fx Pn i w (precur H i near ts w)
@@ -250,13 +274,357 @@ theorem Fx.precur {Pn : Obs τ → Prop} (hP : PnOK Pn) {H : FiatH τ} (hH : HSp
       · exact Fx.trans (Fx.evalGuards hP hH i _ w) (Fx.precur hP hH i near rest _)
     · exact Fx.precur hP hH i near rest w
 
+theorem Fx.precurActive {Pn : Obs τ → Prop} (hP : PnOK Pn) {H : FiatH τ} (hH : HSpec Pn H) (i : Nat) (w : World τ) :
+    Fx Pn i w (precurActive H i w) := by
+  unfold Ioflo.Bids.precurActive
+  split
+  · exact Fx.precur hP hH i _ _ w
+  · exact Fx.refl _ _ _
+
 theorem Fx.segue {Pn : Obs τ → Prop} (hP : PnOK Pn) {H : FiatH τ} (hH : HSpec Pn H) (i : Nat) (w : World τ) :
     Fx Pn i w (segue H i w) := by
   unfold Ioflo.Bids.segue
+  exact Fx.trans (Fx.bumpRecurred i i w) (Fx.precurActive hP hH i _)
+
+/-! ### the runner table -/
+
+/-- like `Fx`, but the framer's own status may change -/
+structure Tx (Pn : Obs τ → Prop) (i : Nat) (w w' : World τ) : Prop where
+  ext : ∃ n, w'.trace = w.trace ++ n ∧ (∀ o ∈ n, Pn o) ∧ ∀ k, k ≠ i → stat w' k = applyFiats n k (stat w k)
+  desire : DesireOK w → DesireOK w'
+
+theorem Fx.toTx {Pn : Obs τ → Prop} {i : Nat} {w w' : World τ} (h : Fx Pn i w w') : Tx Pn i w w' :=
+  ⟨h.ext, h.desire⟩
+
+theorem Tx.refl (Pn : Obs τ → Prop) (i : Nat) (w : World τ) : Tx Pn i w w := (Fx.refl Pn i w).toTx
+
+theorem Tx.trans {Pn : Obs τ → Prop} {i : Nat} {w w' w'' : World τ} (h1 : Tx Pn i w w') (h2 : Tx Pn i w' w'') :
+    Tx Pn i w w'' := by
+  obtain ⟨n1, t1, p1, o1⟩ := h1.ext
+  obtain ⟨n2, t2, p2, o2⟩ := h2.ext
+  refine ⟨⟨n1 ++ n2, by rw [t2, t1]; simp, ?_, ?_⟩, fun h => h2.desire (h1.desire h)⟩
+  · intro o ho
+    rcases List.mem_append.mp ho with h | h
+    · exact p1 o h
+    · exact p2 o h
+  · intro k hk
+    rw [o2 k hk, o1 k hk, applyFiats_append]
+
+theorem Tx.setStatus {Pn : Obs τ → Prop} (i : Nat) (st : Status) (w : World τ) : Tx Pn i w (setStatus i st w) := by
+  refine ⟨⟨[], by simp [Ioflo.Bids.setStatus, World.modF], by simp, ?_⟩, ?_⟩
+  · intro k hk
+    simp [applyFiats, stat, Ioflo.Bids.setStatus, World.modF, hk]
+  · intro h k c hc
+    have : des (Ioflo.Bids.setStatus i st w) k = des w k := by
+      simp only [des, Ioflo.Bids.setStatus, World.modF]; split
+      · rename_i hh; rw [hh]
+      · rfl
+    rw [this]; exact h k c hc
+
+theorem stat_setStatus (i : Nat) (st : Status) (w : World τ) : stat (setStatus i st w) i = st := by
+  simp [stat, Ioflo.Bids.setStatus, World.modF]
+
+section branches
+variable {Pn : Obs τ → Prop} (hP : PnOK Pn) {H : FiatH τ} (hH : HSpec Pn H) (i : Nat) (w : World τ)
+include hP hH
+
+theorem Tx.runLive : Tx Pn i w (runLive H i w) :=
+  Tx.trans (Fx.trans (Fx.segue hP hH i w) (Fx.recur hP hH i _)).toTx (Tx.setStatus i _ _)
+
+theorem Tx.abortBad : Tx Pn i w (abortBad i w) :=
+  Tx.trans (Fx.writeDesire hP i i _ w).toTx (Tx.setStatus i _ _)
+
+theorem Tx.readyIdle : Tx Pn i w (readyIdle H i w) := by
+  unfold Ioflo.Bids.readyIdle
   simp only []
-  refine Fx.trans (Fx.modF i i w _ (fun _ => rfl) (fun _ => rfl)) ?_
   split
-  · exact Fx.precur hP hH i _ _ _
-  · exact Fx.refl _ _ _
+  · exact Tx.trans (Fx.checkStart hP hH i w).toTx (Tx.setStatus i _ _)
+  · exact Tx.trans (Fx.trans (Fx.checkStart hP hH i w) (Fx.writeDesire hP i i _ _)).toTx (Tx.setStatus i _ _)
+
+theorem Tx.startIdle : Tx Pn i w (startIdle H i w) := by
+  unfold Ioflo.Bids.startIdle
+  simp only []
+  split
+  · exact Tx.trans (Fx.trans (Fx.checkStart hP hH i w) (Fx.trans (Fx.writeDesire hP i i _ _)
+      (Fx.trans (Fx.enterAll hP hH i _) (Fx.recur hP hH i _)))).toTx (Tx.setStatus i _ _)
+  · exact Tx.trans (Fx.trans (Fx.checkStart hP hH i w) (Fx.writeDesire hP i i _ _)).toTx (Tx.setStatus i _ _)
+
+theorem Tx.stopLive : Tx Pn i w (stopLive H i w) :=
+  Tx.trans (Fx.trans (Fx.writeDesire hP i i _ w) (Fx.exitAll hP hH i _)).toTx (Tx.setStatus i _ _)
+
+theorem Tx.abortAny (live : Bool) : Tx Pn i w (abortAny H i live w) := by
+  unfold Ioflo.Bids.abortAny
+  cases live
+  · exact Tx.trans (Fx.writeDesire hP i i _ w).toTx (Tx.setStatus i _ _)
+  · exact Tx.trans (Fx.trans (Fx.exitAll hP hH i w) (Fx.writeDesire hP i i _ _)).toTx (Tx.setStatus i _ _)
+
+/-- every resumption of a framer's runner: trace only extended (no scheduler marker), other
+framers' statuses change only through the fiats logged, desire stays the last write -/
+theorem table_tx (c : Control) : Tx Pn i w (table H i c w).2 := by
+  unfold table
+  simp only []
+  cases c <;> simp only []
+  · -- stop
+    split
+    · exact Tx.stopLive hP hH i w
+    · split
+      · exact Tx.refl _ _ _
+      · exact Tx.abortBad hP hH i w
+  · -- start
+    split
+    · exact Tx.startIdle hP hH i w
+    · split
+      · exact (Fx.writeDesire hP i i _ w).toTx
+      · exact Tx.abortBad hP hH i w
+  · -- run
+    split
+    · exact Tx.runLive hP hH i w
+    · split
+      · exact (Fx.writeDesire hP i i _ w).toTx
+      · exact Tx.abortBad hP hH i w
+  · exact Tx.abortAny hP hH i w _
+  · -- ready
+    split
+    · exact Tx.readyIdle hP hH i w
+    · split
+      · exact Tx.refl _ _ _
+      · exact Tx.abortBad hP hH i w
+  · exact Tx.abortAny hP hH i w _
+
+end branches
+
+/-- **The documented control × status table of a framer** (status after one resumption).
+`chk` = what `checkStart()` returns (only consulted for START/READY from stopped/readied). -/
+def docStatus (c : Control) (st : Status) (chk : Bool) : Status :=
+  match c, st with
+  | .abort, _ | .other, _ => .aborted                 -- abort, or anything that is not a control
+  | _, .aborted => .aborted                           -- an aborted framer stays aborted
+  | .run, .started | .run, .running => .running
+  | .run, st => st                                    -- (desire START)
+  | .stop, .started | .stop, .running => .stopped
+  | .stop, st => st
+  | .start, .stopped | .start, .readied => if chk then .started else .stopped
+  | .start, st => st                                  -- already started (desire RUN)
+  | .ready, .stopped | .ready, .readied => if chk then .readied else .stopped
+  | .ready, st => st
+
+/-- the value written to the framer's own `desire` by the table itself, before any hook runs
+(`none`: no write) -/
+def docDesire (c : Control) (st : Status) (chk : Bool) : Option Control :=
+  match c, st with
+  | .abort, _ | .other, _ => some .abort
+  | _, .aborted => some .abort
+  | .run, .started | .run, .running => none
+  | .run, _ => some .start
+  | .stop, .started | .stop, .running => some .stop
+  | .stop, _ => none
+  | .start, .stopped | .start, .readied => if chk then some .run else some .stop
+  | .start, _ => some .run
+  | .ready, .stopped | .ready, .readied => if chk then none else some .stop
+  | .ready, _ => none
+
+theorem table_yields (H : FiatH τ) (i : Nat) (c : Control) (w : World τ) :
+    (table H i c w).1 = stat (table H i c w).2 i := rfl
+
+theorem table_status (H : FiatH τ) (i : Nat) (c : Control) (w : World τ) :
+    (table H i c w).1 = docStatus c (stat w i) (checkStart H i w).1 := by
+  unfold table
+  simp only []
+  have hs : (w.framers i).status = stat w i := rfl
+  cases hst : stat w i <;> cases c <;>
+    simp [hst, hs, docStatus, Ioflo.Bids.runLive, Ioflo.Bids.abortBad, Ioflo.Bids.readyIdle,
+      Ioflo.Bids.startIdle, Ioflo.Bids.stopLive, Ioflo.Bids.abortAny, Ioflo.Bids.setStatus, World.modF,
+      Ioflo.Bids.writeDesire, World.log] <;>
+    (try (split <;> simp [stat] at * <;> simp_all))
+
+/-! ### the two fiat handlers -/
+
+theorem noFiat_spec : HSpec (plain (τ := τ)) noFiat := by
+  intro by_ c sl w
+  exact Fx.of_same (fun _ => rfl) (fun _ => rfl) rfl
+
+theorem fiatTop_spec : HSpec (good (τ := τ)) fiatTop := by
+  intro by_ c sl w
+  unfold fiatTop
+  split
+  · exact Fx.of_same (fun _ => rfl) (fun _ => rfl) rfl
+  · rename_i hne
+    simp only []
+    have tx := table_tx plain_ok noFiat_spec sl w c
+    obtain ⟨n, ht, hp, ho⟩ := tx.ext
+    have hnf : ∀ o ∈ n, o.isFiat = false := fun o h => (hp o h).2
+    have hby : by_ ≠ sl := fun h => hne h.symm
+    refine ⟨?_, ⟨n ++ [.fiat by_ sl c (table noFiat sl c w).1 (decide ((table noFiat sl c w).1 = expected c))], ?_, ?_, ?_⟩, ?_⟩
+    · show stat (table noFiat sl c w).2 by_ = stat w by_
+      rw [ho by_ hby, applyFiats_noFiat n by_ _ hnf]
+    · simp [World.log, ht]
+    · intro o h
+      rcases List.mem_append.mp h with h | h
+      · exact plain_good (hp o h)
+      · simp at h; subst h; exact ⟨rfl, rfl⟩
+    · intro k hk
+      show stat (table noFiat sl c w).2 k = _
+      rw [applyFiats_append, applyFiats_noFiat n k _ hnf]
+      by_cases hks : k = sl
+      · subst hks
+        simp [applyFiats, table_yields]
+      · rw [ho k hks, applyFiats_noFiat n k _ hnf]
+        have : ¬ sl = k := fun h => hks h.symm
+        simp [applyFiats, this]
+    · intro h
+      exact (tx.desire h).log _ (by simp)
+
+/-! ### one scheduler send -/
+
+theorem send_tx (ph : Phase) (i : Nat) (c : Control) (stamp : τ) (w : World τ) :
+    ∃ n, ((FramerEnv (τ := τ)).send ph i c stamp w).2.trace = w.trace ++ .recv ph i c :: n ∧
+      (∀ o ∈ n, good o) ∧
+      (∀ k, k ≠ i → stat ((FramerEnv (τ := τ)).send ph i c stamp w).2 k = applyFiats n k (stat w k)) ∧
+      (DesireOK w → DesireOK ((FramerEnv (τ := τ)).send ph i c stamp w).2) := by
+  have tx := table_tx good_ok fiatTop_spec i (w.log (.recv ph i c)) c
+  obtain ⟨n, ht, hp, ho⟩ := tx.ext
+  refine ⟨n ++ [.yield i (table fiatTop i c (w.log (.recv ph i c))).1], ?_, ?_, ?_, ?_⟩
+  · have h1 : ((FramerEnv (τ := τ)).send ph i c stamp w).2.trace =
+        (table fiatTop i c (w.log (.recv ph i c))).2.trace ++
+          [.yield i (table fiatTop i c (w.log (.recv ph i c))).1] := rfl
+    have h2 : (w.log (.recv ph i c)).trace = w.trace ++ [.recv ph i c] := rfl
+    rw [h1, ht, h2]; simp
+  · intro o h
+    rcases List.mem_append.mp h with h | h
+    · exact hp o h
+    · simp at h; subst h; exact ⟨rfl, trivial⟩
+  · intro k hk
+    show stat (table fiatTop i c (w.log (.recv ph i c))).2 k = _
+    rw [ho k hk, applyFiats_append]
+    simp [applyFiats, stat, World.log]
+  · intro h
+    exact (tx.desire (h.log _ (by simp))).log _ (by simp)
+
+/-! ### the trace of scheduler sends -/
+
+/-- every main-loop send carries the last value written to the framer's desire before it; every
+send of the abort sweep carries ABORT -/
+def TraceOK (tr : List (Obs τ)) : Prop :=
+  ∀ a ph i c b, tr = a ++ .recv ph i c :: b →
+    (ph = .loop → lastWrite a i = some c) ∧ (ph = .final → c = .abort)
+
+theorem TraceOK.nil : TraceOK ([] : List (Obs τ)) := by
+  intro a ph i c b h
+  have := congrArg List.length h
+  simp at this
+
+theorem TraceOK.append {tr m : List (Obs τ)} (h : TraceOK tr) (hm : ∀ o ∈ m, o.isRecv = false) :
+    TraceOK (tr ++ m) := by
+  intro a ph i c b hsplit
+  rcases List.append_eq_append_iff.mp hsplit with ⟨as, h1, h2⟩ | ⟨bs, h1, h2⟩
+  · have := hm (.recv ph i c) (by rw [h2]; simp)
+    simp [Obs.isRecv] at this
+  · cases bs with
+    | nil =>
+      have := hm (.recv ph i c) (by simp at h2; rw [← h2]; simp)
+      simp [Obs.isRecv] at this
+    | cons x xs =>
+      simp only [List.cons_append, List.cons.injEq] at h2
+      obtain ⟨hx, _⟩ := h2
+      subst hx
+      exact h a ph i c xs h1
+
+theorem TraceOK.snoc_recv {tr : List (Obs τ)} (h : TraceOK tr) (ph : Phase) (i : Nat) (c : Control)
+    (hl : ph = .loop → lastWrite tr i = some c) (hf : ph = .final → c = .abort) :
+    TraceOK (tr ++ [.recv ph i c]) := by
+  intro a ph' i' c' b hsplit
+  rcases List.append_eq_append_iff.mp hsplit with ⟨as, h1, h2⟩ | ⟨bs, h1, h2⟩
+  · cases as with
+    | nil =>
+      simp only [List.nil_append, List.cons.injEq] at h2
+      obtain ⟨hx, _⟩ := h2
+      cases hx
+      simp only [List.append_nil] at h1
+      subst h1
+      exact ⟨hl, hf⟩
+    | cons x xs =>
+      have := congrArg List.length h2
+      simp at this
+  · cases bs with
+    | nil =>
+      simp only [List.nil_append, List.cons.injEq] at h2
+      obtain ⟨hx, _⟩ := h2
+      cases hx
+      simp only [List.append_nil] at h1
+      subst h1
+      exact ⟨hl, hf⟩
+    | cons x xs =>
+      simp only [List.cons_append, List.cons.injEq] at h2
+      obtain ⟨hx, _⟩ := h2
+      subst hx
+      exact h a ph' i' c' xs h1
+
+theorem lastWrite_append_isSome (tr m : List (Obs τ)) (k : Nat) (h : (lastWrite tr k).isSome) :
+    (lastWrite (tr ++ m) k).isSome := by
+  induction m generalizing tr with
+  | nil => simpa using h
+  | cons o m ih =>
+    have h1 : (lastWrite (tr ++ [o]) k).isSome := by
+      rw [lastWrite_snoc]
+      cases o <;> simp_all
+      split <;> simp_all
+    have := ih (tr ++ [o]) h1
+    simpa using this
+
+/-- the invariant behind `C04_control_is_last_bid` -/
+structure BidInv (s : St τ (World τ)) : Prop where
+  desire : DesireOK s.world
+  trace : TraceOK s.world.trace
+  written : ∀ e ∈ s.ready, (lastWrite s.world.trace e.id).isSome
+
+theorem bidInv_step : StepInv (FramerEnv (τ := τ)) BidInv where
+  after := by
+    intro s e rest hi hr
+    have hw := after_world FramerEnv s e rest
+    have hrd := after_ready FramerEnv s e rest
+    by_cases hd : isDue s e
+    · simp only [hd, if_true] at hw
+      obtain ⟨n, ht, hp, _, hdes⟩ := send_tx .loop e.id (FramerEnv.desire s.world e.id) s.storeStamp s.world
+      have hsome := hi.written e (by rw [hr]; simp)
+      have hlw : lastWrite s.world.trace e.id = some (FramerEnv.desire s.world e.id) := by
+        cases hl : lastWrite s.world.trace e.id with
+        | none => rw [hl] at hsome; simp at hsome
+        | some c => exact congrArg some (hi.desire e.id c hl).symm
+      refine ⟨by rw [hw]; exact hdes hi.desire, ?_, ?_⟩
+      · rw [hw, ht]
+        have h1 := hi.trace.snoc_recv .loop e.id _ (fun _ => hlw) (fun h => by cases h)
+        have h2 := h1.append (m := n) (fun o ho => (hp o ho).1)
+        simpa using h2
+      · intro x hx
+        rw [hw, ht]
+        apply lastWrite_append_isSome
+        rw [hrd] at hx
+        rcases List.mem_append.mp hx with h | h
+        · exact hi.written x (by rw [hr]; exact List.mem_cons_of_mem _ h)
+        · rw [ids_kept FramerEnv s e x h]; exact hsome
+    · simp only [hd] at hw
+      refine ⟨by rw [hw]; exact hi.desire, by rw [hw]; exact hi.trace, ?_⟩
+      intro x hx
+      rw [hw]
+      rw [hrd] at hx
+      rcases List.mem_append.mp hx with h | h
+      · exact hi.written x (by rw [hr]; exact List.mem_cons_of_mem _ h)
+      · rw [ids_kept FramerEnv s e x h]; exact hi.written e (by rw [hr]; simp)
+  afterFinal := by
+    intro s e rest hi hr
+    obtain ⟨n, ht, hp, _, hdes⟩ := send_tx .final e.id .abort s.storeStamp s.world
+    refine ⟨hdes hi.desire, ?_, ?_⟩
+    · show TraceOK (FramerEnv.send .final e.id .abort s.storeStamp s.world).2.trace
+      rw [ht]
+      have h1 := hi.trace.snoc_recv .final e.id .abort (fun h => by cases h) (fun _ => rfl)
+      have h2 := h1.append (m := n) (fun o ho => (hp o ho).1)
+      simpa using h2
+    · intro x hx
+      show (lastWrite (FramerEnv.send .final e.id .abort s.storeStamp s.world).2.trace x.id).isSome
+      rw [ht]
+      apply lastWrite_append_isSome
+      exact hi.written x (by rw [hr]; exact List.mem_cons_of_mem _ hx)
+  advance := fun s hi => ⟨hi.desire, hi.trace, hi.written⟩
+  halfAdvance := fun s hi => ⟨hi.desire, hi.trace, hi.written⟩
 
 end Ioflo.Bids
